@@ -26,3 +26,11 @@ mut("auto_set_done_does_not_wake", "violation", "auto", AC,
 mut("benign_hook_removed_pass", "clean", "pass", PC,
     "    UNIFEX_VERIF_YIELD(\"event.pass.aos\");\n", "",
     "a schedule point removed")
+mut("pass_throw_stop_try_complete_before_cas", "violation", "pass", PH,
+    "    if (pass_.state_.compare_exchange_strong(\n            expected, 0, std::memory_order_acq_rel)) {\n      if (try_complete(this)) {\n        cancelled_ = true;\n        forwardingOp_.start(*this);\n      }\n    }\n  }\n\n  Receiver& get_receiver() noexcept { return receiver_; }\n\n  void forward_set_value() noexcept {\n    if (cancelled_) {\n      unifex::set_done(std::move(receiver_));\n    } else {\n      unifex::set_value(std::move(receiver_));\n    }\n  }\n\nprivate:\n  async_pass_base& pass_;\n  Receiver receiver_;\n  completion_forwarder<throw_op, Receiver> forwardingOp_;\n",
+    "    if (try_complete(this) &&\n        pass_.state_.compare_exchange_strong(\n            expected, 0, std::memory_order_acq_rel)) {\n      cancelled_ = true;\n      forwardingOp_.start(*this);\n    }\n  }\n\n  Receiver& get_receiver() noexcept { return receiver_; }\n\n  void forward_set_value() noexcept {\n    if (cancelled_) {\n      unifex::set_done(std::move(receiver_));\n    } else {\n      unifex::set_value(std::move(receiver_));\n    }\n  }\n\nprivate:\n  async_pass_base& pass_;\n  Receiver receiver_;\n  completion_forwarder<throw_op, Receiver> forwardingOp_;\n",
+    "throw_op::stop() evaluates try_complete before the un-claim CAS: a stop landing between an acceptor's claim and its resume_ strands the async_throw (seeded defect C16-1)")
+mut("pass_accept_stop_try_complete_before_cas", "violation", "pass", PH,
+    "    if (pass_.state_.compare_exchange_strong(\n            expected, 0, std::memory_order_acq_rel)) {\n      locked_complete_with(defer_set_done());\n      if (try_complete(this)) {\n        forwardingOp_.start(*this);\n      }\n    }\n",
+    "    if (try_complete(this) &&\n        pass_.state_.compare_exchange_strong(\n            expected, 0, std::memory_order_acq_rel)) {\n      locked_complete_with(defer_set_done());\n      forwardingOp_.start(*this);\n    }\n",
+    "accept_op::stop() evaluates try_complete before the un-claim CAS: a stop landing between a caller's claim and the acceptor's unlocked_complete_ strands the async_accept")
